@@ -483,12 +483,44 @@ def run(tier):
     for cfgname, cfg in (("default", None), ("full", FULL_CONFIG), ("zipfirst", ZIPFIRST_CONFIG)):
         for variant, cwd, spelling in (("a", "parent", None), ("b", "parent", "relative"), ("none", "root", "dotdot")):
             worlds.append({"op": "world", "tree": tree, "outside": outside_variant(variant), "config": cfg,
-                           "cwd": cwd, "root_spelling": spelling, "requests": reqs_json,
+                           "cwd": cwd, "root_spelling": spelling, "requests": reqs_json, "tmpdir": True,
                            "_cfg": cfgname, "_variant": variant})
     wres = impl_run_parallel(worlds, chunks=len(worlds))
     for r in wres:
         if not r["ok"]:
             raise RuntimeError(r["err"] + "\n" + r.get("tb", ""))
+    # probe-then-plant: every path outside the root that the server LOOKED at (stat, open, list -- in the parent
+    # directory, the working directory, the system's temporary directory) is a potential input channel: put a file
+    # there and run the same requests again; nothing may be opened there and no response may change
+    import pickle as _pickle
+    pworlds = []
+    planted = {}
+    for w, r in zip(list(worlds), list(wres)):
+        if w["_variant"] != "a":
+            continue
+        root = r["res"]["root"]
+        top = os.path.dirname(r["res"]["parent"])
+        rels = set()
+        for out in r["res"]["results"]:
+            for cls, path in out["trace"] or []:
+                if path.startswith("<fd"):
+                    continue
+                ap = os.path.normpath(path if os.path.isabs(path) else os.path.join(r["res"]["parent"], path))
+                if ap.startswith(top + "/") and not (ap == root or ap.startswith(root + "/")):
+                    rels.add(os.path.relpath(ap, top))
+        rels = sorted(rels)[:400]
+        planted[w["_cfg"]] = len(rels)
+        bodies = [("plant1", "PLANTED-ONE\n"), ("plant2", _pickle.dumps({"0": {"planted.txt": "1"}, "1": "planted"}, 1).decode("latin-1"))]
+        for vname, body in bodies:
+            pworlds.append({"op": "world", "tree": tree, "outside": outside_variant("a"), "config": w["config"], "cwd": "parent",
+                            "root_spelling": None, "requests": reqs_json, "tmpdir": True, "plant": [[rel, body] for rel in rels],
+                            "_cfg": w["_cfg"], "_variant": vname})
+    pres = impl_run_parallel(pworlds, chunks=len(pworlds))
+    for r in pres:
+        if not r["ok"]:
+            raise RuntimeError(r["err"] + "\n" + r.get("tb", ""))
+    worlds += pworlds
+    wres += pres
     escapes = 0
     diffs = 0
     notnf = 0
@@ -531,7 +563,7 @@ def run(tier):
                     chk.violation({"what": f"{cls} of a path outside the document root", "path": path,
                                    "normalised": npath, "root": root, "protocol": proto, "selector": s,
                                    "request_latin1": gen.lat(data), "tls": tls, "handlers": w["_cfg"],
-                                   "world": {k: w[k] for k in ("tree", "outside", "config", "cwd", "root_spelling")}},
+                                   "world": {k: w.get(k) for k in ("tree", "outside", "config", "cwd", "root_spelling", "plant")}},
                                   tag=f"escape:{proto}:{cls}")
             # (2) climbers are answered not-found
             sn = s[:-1] if s.endswith("/") else s      # the protocol drops one trailing slash first
@@ -544,7 +576,7 @@ def run(tier):
                                    "protocol": proto, "selector": s, "percent_layers": layers,
                                    "request_latin1": gen.lat(data), "tls": tls, "handlers": w["_cfg"],
                                    "response_latin1": out["out"][:400], "exception": out["exc"], "log": out["log"][-3:],
-                                   "world": {k: w[k] for k in ("tree", "outside", "config", "cwd", "root_spelling")}},
+                                   "world": {k: w.get(k) for k in ("tree", "outside", "config", "cwd", "root_spelling", "plant")}},
                                   tag=f"not-notfound:{kind}:{proto}")
     # (3) non-interference: same config, different outside worlds / cwd / root spelling => identical bytes
     for cfgname in ("default", "full", "zipfirst"):
@@ -564,7 +596,7 @@ def run(tier):
                                    "tree": tree}, tag=f"interference:{q[0]}")
     chk.sample({"kind": "end-to-end", "protocol": requests[3][0], "selector": requests[3][1],
                 "request_latin1": gen.lat(requests[3][4]), "response_latin1": wres[0]["res"]["results"][3]["out"][:120]})
-    cov["oracle"] = {"worlds": len(worlds), "requests_per_world": len(requests),
+    cov["oracle"] = {"worlds": len(worlds), "requests_per_world": len(requests), "planted_paths_per_config": planted,
                      "hostile_requests": sum(1 for q in requests if q[6]),
                      "escaping_events": escapes, "response_differences": diffs, "climbers_not_notfound": notnf}
     cov["rule"] = ("component: every string over {. / \\ NUL % a ? |} up to the stated length plus seeded random longer ones, "
